@@ -118,7 +118,7 @@ def order(case):
     fac = Knew / float(St["profiles"][4][0])
     St["profiles"] = tuple(p if i < 2 else p * fac for i, p in enumerate(St["profiles"]))
     St["pdesc"] = dict(St["pdesc"], K=Knew)
-    gridk = str(rng.choice(["uniform", "geometric"]))
+    gridk = str(rng.choice(["uniform", "geometric", "expmap_weak"]))  # expmap_weak: almost uniform, each layer 1e-6 thicker than the last
     n0 = int(rng.integers(3, 13))
     z0c = float(St["z"][0]) if gridk == "uniform" else float(max(St["z"][0], 0.15 * zm))
     deep = bool(case.get("deep"))
@@ -147,7 +147,7 @@ def order(case):
     fp = bool(rng.random() < 0.5)
     q0, skind = gen.make_source(rng, ny, nx)
     mp = (float(rng.integers(nx)) * dx, float(rng.integers(ny)) * dy) if (fp or rng.random() < 0.5) else (0.0, 0.0)
-    frac = float(rng.choice([1.0, 0.5, 0.25]))  # output height as a fraction of the column (a node of every refinement)
+    frac = float(rng.choice([1.0, 0.5, 0.25, 0.0]))  # output height as a fraction of the column (a node of every refinement; 0 = the surface)
     if deep:
         frac = 0.125
     errs = []
@@ -160,6 +160,8 @@ def order(case):
         S2 = dict(St)
         S2["z"], S2["profiles"] = zz, prof
         L = max(1, int(round(n * frac))) if (n0 * frac) >= 1 and float(n0 * frac).is_integer() else n
+        if frac == 0.0:
+            L = 0
         kw = dict(footprint=fp, meas_pt=mp, precision="double")
         _, cn, fn = solve.solve(S2, q0, L, **kw)
         _, ca, fa = solve.solve(S2, q0, L, analytic=True, **kw)
